@@ -324,3 +324,27 @@ func vc_C07_quadtree_covers_box() {
 	}
 	vfReach("covers")
 }
+
+// The 2-D distance cache is transparent as well: for every query history of
+// length 3 with lattice indices up to 70000 x 60000 (a quadtree of more than
+// 32000 cells per axis) dcache2.evaluate returns the lattice position and the
+// value the shape reported at exactly that position.
+func vc_C07_cache2() {
+	l := &vfLeafR2{}
+	res := vfReal("resolution")
+	vfAssume(res >= 0.001)
+	org := v2.Vec{X: vfReal("o.x"), Y: vfReal("o.y")}
+	dc := newDcache2(l, org, res, 4)
+	for k := 0; k < 3; k++ {
+		vi := v2i.Vec{X: vfIntN("i.x", k, 0, 70000), Y: vfIntN("i.y", k, 0, 60000)}
+		p, d := dc.evaluate(vi)
+		want := v2.Vec{X: org.X + float64(vi.X)*res, Y: org.Y + float64(vi.Y)*res}
+		vfAssert(vfAnd(p.X == want.X, p.Y == want.Y), "dcache2.evaluate returns the lattice position origin + index*resolution")
+		ok := false
+		for j := range l.q {
+			ok = vfOr(ok, vfAnd(vfAnd(l.q[j].X == want.X, l.q[j].Y == want.Y), l.v[j] == d))
+		}
+		vfAssert(ok, "dcache2.evaluate returns the value the shape reported at that lattice position")
+	}
+	vfReach("cache2")
+}
